@@ -17,6 +17,15 @@ def digests(model):
     zs = ["Europe/Berlin", "America/New_York", "Asia/Tokyo", "Australia/Lord_Howe", "Africa/Cairo"]
     target.add("exdate", [py(("dt", 2024, 5, 6, 7, 8, 9, "zone:" + z)) for z in zs])
     target.add("rdate", [py(("d", 2024, 5, 6)), py(("dt", 2024, 5, 6, 7, 8, 9, "zone:Asia/Tokyo")), (py(("dt", 2024, 5, 6, 7, 8, 9, "zone:Europe/Berlin")), py(("td", 3600)))])
+    # tzinfo objects that carry no zone name: the library has to pick an id for them among all zones that behave alike - the same one in every process
+    from datetime import datetime, timedelta, timezone
+    from dateutil import tz as dutz
+    for h in (3, -5, 0, 5.5, 14, -12, 1, -3.5):
+        target.add("rdate", datetime(2024, 5, 6, 7, 8, 9, tzinfo=timezone(timedelta(hours=h))))
+    target.add("x-verif-fixed", datetime(2024, 5, 6, 7, 8, 9, tzinfo=dutz.tzoffset(None, 7200)))
+    target.add("x-verif-named-offset", datetime(2024, 1, 6, 7, 8, 9, tzinfo=dutz.tzoffset("X", -3 * 3600)))
+    target.add("x-verif-dateutil", datetime(2024, 5, 6, 7, 8, 9, tzinfo=dutz.gettz("America/New_York")))
+    target.add("x-verif-tzutc", datetime(2024, 5, 6, 7, 8, 9, tzinfo=dutz.tzutc()))
     out.append(hashlib.sha256(cal.to_ical()).hexdigest())
     out.append(hashlib.sha256(cal.to_ical(sorted=False)).hexdigest())
     cal2 = build(model)
